@@ -166,9 +166,12 @@ def module_phase(out, raws, count):
     _M['dir'] = common.scratch_dir('xdv-c14')
     sys.path.insert(0, _M['dir'])
     try:
-        infos = [i for i in common.parallel_map(_module_case, jobs, chunk=10) if i is not None]
+        infos, hung = common.parallel_map_hangsafe(_module_case, jobs, chunk=10, deadline=120)
+        infos = [i for i in infos if i is not None]
     finally:
         sys.path.remove(_M['dir'])
+    for it in hung:
+        out.violation({'kind': 'module_containment', 'fields': 'hang'}, {'module_of_docstrings': it, 'observed': 'collection did not return within 120 s (stuck outside Python code)'})
     for info in infos:
         out.traces += 1
         out.evaluations += 1
@@ -213,7 +216,11 @@ def _random_case(i):
 
 def random_phase(out, count):
     _M['seed'] = common.seed()
-    res = common.parallel_map(_random_case, list(range(count)), chunk=200)
+    res, hung = common.parallel_map_hangsafe(_random_case, list(range(count)), chunk=200, deadline=40)
+    for i in hung:
+        rng = random.Random(_M['seed'] * 1000003 + i)
+        s = ''.join(rng.choice(FRAGMENTS) for _ in range(rng.randint(1, 14)))
+        out.violation({'kind': 'random_envelope', 'fields': 'hang'}, {'string': s, 'observed': 'no answer within 40 s (stuck outside Python code)', 'where': 'hang'})
     for r in res:
         out.evaluations += 1
         if r is not None:
@@ -248,7 +255,16 @@ def run(tier):
     parselib._JOB['extra'] = extra
     parselib._JOB['outcome_only_when_f11'] = True
     n_err = 0
-    for info in common.parallel_map(parselib._one, raws, chunk=100):
+    infos, hung = common.parallel_map_hangsafe(parselib._one, raws, chunk=100, deadline=60)
+    for raw in hung:
+        try:
+            case = parselib.decode(raw)
+            text = '\n'.join(parselib.render(case, (zlib.crc32(raw.encode()) + common.seed()) % 100003)[0])
+        except Exception:
+            text = '<not rendered>'
+        out.violation({'kind': 'parse_replay', 'fields': 'hang', 'prompt_indent_change_after_source': False},
+                      {'text': text, 'case': raw[:2000], 'disagreements': [('hang', 'returns within 60 s', 'stuck outside Python code')]})
+    for info in infos:
         out.traces += 1
         out.evaluations += 1
         out.count_nontrivial(info['key'])
